@@ -100,6 +100,8 @@ struct BenchSpec {
     name: String,
     sc: String,
     ign: bool,
+    /// `ignore = false` set explicitly (opting back in below an ignored group).
+    ign_false: bool,
     args: Option<Vec<String>>,
     threads: Option<Vec<usize>>,
     did_run: bool,
@@ -123,6 +125,8 @@ struct GroupSpec {
     name: String,
     raw: String,
     sc: String,
+    /// the group sets `ignore = true`
+    ign: bool,
     module_path: String,
     line: u32,
 }
@@ -180,7 +184,9 @@ fn parse_node(t: &mut Toks, path: &str, spec: &mut Spec, line: &mut u32) {
     match kind {
         "G" => {
             let name = pct_decode(t.next());
-            let sc = t.next().to_string();
+            let sc_tok = t.next();
+            let g_ign = sc_tok.ends_with('!');
+            let sc = sc_tok.trim_end_matches('!').to_string();
             let n: usize = t.next().parse().unwrap();
             // Without a GroupEntry the path component is the display name
             // itself; with one, a unique raw name.
@@ -188,7 +194,7 @@ fn parse_node(t: &mut Toks, path: &str, spec: &mut Spec, line: &mut u32) {
             let my_line = *line;
             let sub = if path.is_empty() { raw.clone() } else { format!("{path}::{raw}") };
             if sc != "-" {
-                spec.groups.push(GroupSpec { name, raw, sc, module_path: path.to_string(), line: my_line });
+                spec.groups.push(GroupSpec { name, raw, sc, ign: g_ign, module_path: path.to_string(), line: my_line });
             }
             for _ in 0..n {
                 parse_node(t, &sub, spec, line);
@@ -198,7 +204,9 @@ fn parse_node(t: &mut Toks, path: &str, spec: &mut Spec, line: &mut u32) {
             let id: u64 = t.next().parse().unwrap();
             let name = pct_decode(t.next());
             let sc = t.next().to_string();
-            let ign = t.next() == "1";
+            let ign_tok = t.next();
+            let ign = ign_tok == "1";
+            let ign_false = ign_tok == "f";
             let a = t.next();
             let args = if a == "P" {
                 None
@@ -217,7 +225,7 @@ fn parse_node(t: &mut Toks, path: &str, spec: &mut Spec, line: &mut u32) {
                 }
             }
             spec.benches.push(BenchSpec {
-                id, name, sc, ign, args, threads,
+                id, name, sc, ign, ign_false, args, threads,
                 did_run: beh[0] == "1",
                 seed: beh[1].parse().unwrap(),
                 lo: beh[2].parse().unwrap(),
@@ -414,6 +422,9 @@ pub fn opts<const K: usize>() -> dp::BenchOptions<'static> {
         if b.ign {
             o.ignore = Some(true);
         }
+        if b.ign_false {
+            o.ignore = Some(false);
+        }
         if let Some(t) = &b.threads {
             o.threads = Some(std::borrow::Cow::Owned(t.clone()));
         }
@@ -431,6 +442,9 @@ pub fn opts<const K: usize>() -> dp::BenchOptions<'static> {
     } else {
         let g = &spec.groups[K - spec.benches.len()];
         o.sample_count = sc_of(&g.sc);
+        if g.ign {
+            o.ignore = Some(true);
+        }
     }
     o
 }
